@@ -63,7 +63,16 @@ class HttpRelayClient(RelayPoolClient):
         result, envelope = self.poll()
         if result and envelope:
             self.idle = False
-            self._handle_request(result, envelope)
+            try:
+                self._handle_request(result, envelope)
+            except (gevent.Timeout, Exception) as exc:
+                if not result.ready():
+                    if isinstance(exc, gevent.Timeout):
+                        msg = 'Delivery timed out'
+                    else:
+                        msg = 'Delivery failed: {0!s}'.format(exc)
+                    result.set_exception(TransientRelayError(msg))
+                raise
         else:
             if self.conn:
                 self.conn.close()
